@@ -96,10 +96,34 @@ MODELS: List[Model] = [
           (Prt('p', 'provides', 'VfIA'), Prt('motorA', 'requires', 'VfIA'), Prt('sensor', 'requires', 'VfIF'),
            Prt('motorB', 'requires', 'VfIA'))),
 ]
-MODEL_BY_LABEL = {m.label: i for i, m in enumerate(MODELS)}
+# additional models explored by the thorough tier of the C++-level checks only
+I_G = Itf('VfIG', (Ev('g_out_first', 'out', 'void', (('p', 'in', 'TBlob'), ('q', 'in', 'TBlob'), ('r', 'in', 'TInt'))),
+                 Ev('g_in', 'in', 'void', (('m', 'inout', 'TBlob'), ('n', 'inout', 'TBlob'))),
+                 Ev('g_in2', 'in', 'Res', (('s1', 'out', 'TStr'), ('s2', 'out', 'TStr'), ('s3', 'in', 'TStr'))),
+                 Ev('g_out_last', 'out')), has_res=True)
+I_C3 = Itf('VfIC3', (Ev('Done', 'out', 'void', (('a', 'in', 'TInt'), ('b', 'in', 'TInt'))),
+                   Ev('Lock', 'in', 'Res', (('who', 'in', 'TStr'),)),
+                   Ev('Claim', 'in', 'void'),                      # a decoy: NOT the configured claim event
+                   Ev('Unlock', 'in', 'void', (('who', 'in', 'TStr'), ('force', 'in', 'TInt'))),
+                   Ev('Peek', 'in', 'Res', (('x', 'out', 'TInt'),))), has_res=True)
+MODELS_EXTRA: List[Model] = [
+    Model('deep-ns', ('A', 'B', 'C'), (I_G, I_A),
+          (Prt('g', 'provides', 'VfIG'), Prt('h', 'requires', 'VfIG'), Prt('a', 'requires', 'VfIA'))),
+    Model('four-provides', ('N',), (I_G, I_B, I_A),
+          (Prt('p1', 'provides', 'VfIG'), Prt('p2', 'provides', 'VfIB'), Prt('p3', 'provides', 'VfIA'),
+           Prt('p4', 'provides', 'VfIG'), Prt('r1', 'requires', 'VfIG'), Prt('inj', 'requires', 'VfIB', True),
+           Prt('r2', 'requires', 'VfIB'))),
+    Model('mc-middle', ('N',), (I_A, I_C3, I_G),
+          (Prt('before', 'provides', 'VfIA'), Prt('lock', 'provides', 'VfIC3'), Prt('after', 'provides', 'VfIG'),
+           Prt('r', 'requires', 'VfIG'))),
+    Model('system-global', (), (I_G,), (Prt('g', 'provides', 'VfIG'), Prt('h', 'requires', 'VfIG')), system=True),
+]
+MODELS_ALL = MODELS + MODELS_EXTRA
+MODEL_BY_LABEL = {m.label: i for i, m in enumerate(MODELS_ALL)}
 
 # multi-client settings that fit a model: label -> (port, claim, granting value, release)
-MC_FOR = {'mc-first': ('api', 'Claim', 'Ok', 'Release'),
+MC_FOR = {'mc-middle': ('lock', 'Lock', 'NotOk', 'Unlock'),
+          'mc-first': ('api', 'Claim', 'Ok', 'Release'),
           'mc-last': ('ctl', 'Acquire', 'Busy', 'GiveBack'),
           'mc-only': ('Api', 'Claim', 'Ok', 'Release')}
 
@@ -128,7 +152,7 @@ def model_doc(m: Model) -> dict:
     return dg.root(elements + inner)
 
 
-FCS: List[ast.FileContents] = [dg.parse(model_doc(m)) for m in MODELS]
+FCS: List[ast.FileContents] = [dg.parse(model_doc(m)) for m in MODELS_ALL]
 
 
 def mc_cfg(m: Model) -> Optional[MultiClientPortCfg]:
@@ -176,13 +200,13 @@ class Case:
 
     @property
     def label(self) -> str:
-        return f'{MODELS[self.model_i].label}/{self.cfg_label}/{self.origin.name}/' \
+        return f'{MODELS_ALL[self.model_i].label}/{self.cfg_label}/{self.origin.name}/' \
                f'{".".join(self.prefix) if self.prefix else "-"}'
 
 
 def make_configuration(case: Case, ports_cfg: PortsCfg, fc=None, encapsulee=None,
                        copyright_txt: str = '(c) test') -> Configuration:
-    m = MODELS[case.model_i]
+    m = MODELS_ALL[case.model_i]
     return Configuration(dezyne_filename=f'some/dir/{m.comp}.dzn',
                          ast_fc=fc if fc is not None else FCS[case.model_i],
                          output_basename_suffix='AdvShell',
@@ -207,3 +231,23 @@ def valid_cases() -> List[Tuple[Case, PortsCfg]]:
 
 
 VALID = valid_cases()
+
+
+def extra_cases() -> List[Tuple[Case, PortsCfg]]:
+    """thorough tier of the C++-level checks: the extra models with every origin x prefix, and the
+    origin/prefix combinations the base family leaves out"""
+    out = []
+    for mi, m in enumerate(MODELS_ALL):
+        for label, pc in port_cfgs(m):
+            for origin in (FacilitiesOrigin.CREATE, FacilitiesOrigin.IMPORT):
+                for prefix in (None, ('My', 'Sup'), ('X',)):
+                    base = mi < len(MODELS) and (prefix is None or (prefix == ('My', 'Sup')
+                                                                     and origin == FacilitiesOrigin.CREATE))
+                    if base:
+                        continue
+                    out.append((Case(mi, label, origin, prefix), pc))
+    return out
+
+
+EXTRA = extra_cases()
+ALL_CASES = VALID + EXTRA
